@@ -181,7 +181,8 @@ Definition local_features : list lfeat := [
   {| lf_ent := [0%N]; lf_id := 1; lf_type := T_DEVCLASS; lf_role := RServer; lf_ops := [(F_MANUF, (true, false))] |};
   {| lf_ent := [1%N]; lf_id := 1; lf_type := T_LOADCONTROL; lf_role := RServer;
      lf_ops := [(F_CONS, (true, true)); (F_NODE, (true, false))] |};
-  {| lf_ent := [1%N]; lf_id := 2; lf_type := T_LOADCONTROL; lf_role := RClient; lf_ops := [] |} ].
+  {| lf_ent := [1%N]; lf_id := 2; lf_type := T_LOADCONTROL; lf_role := RClient; lf_ops := [] |};
+  {| lf_ent := [1%N]; lf_id := 3; lf_type := T_GENERIC; lf_role := RServer; lf_ops := [] |} ].
 
 Record st := {
   peers : list peer;                 (* DeviceLocal.remoteDevices *)
@@ -207,7 +208,11 @@ Inductive op :=
 | Connect (p : N)
 | Disconnect (p : N)
 | Inbound (p : N) (d : option dgram)       (* None: the bytes are not a JSON datagram *)
-| Probe (p c : N).                         (* a valid detailed-discovery read from p, message counter c *)
+| Probe (p c : N)                          (* a valid detailed-discovery read from p, message counter c *)
+| Opaque (p : N).                          (* search only: a data message of a function outside the modelled set
+                                              (reply / notify / read between data features); it cannot touch what the
+                                              model tracks (trees, registries, the modelled store); only panic / wedge
+                                              are observed for it, its outputs are not compared *)
 
 (* ------------------------------------------------------------------ helpers *)
 Fixpoint eqb_ln (a b : list N) : bool :=
@@ -1030,6 +1035,7 @@ Definition step_res (fx : bool) (s : st) (o : op) : res (st * list out) :=
       | None => Ok (s, [])
       | Some pe => process_cmd fx s pe (probe_dgram p c)
       end
+  | Opaque _ => Ok (s, [])
   end.
 
 Definition step_fx (fx : bool) (s : st) (o : op) : st * list obs :=
